@@ -10,6 +10,25 @@ CHECKS = {
     'C01': ('reference-model monitor (float64 plug-in MI) over exhaustive small partitions + random structures; numba bounds sanitizer pass',
             'Every estimator call of the workload is compared with an independent float64 plug-in MI and its corollaries (symmetry, bounds, constant => 0, self => entropy). All pairs of set partitions up to n=6/7 are enumerated, so any structural error visible on <=7 rows is caught; larger inputs are sampled per structure class.',
             'Trusts the float64 oracle and the float32 tolerance; inputs beyond the generated classes are not covered.', '3/C01'),
+
+    'C02': ('metamorphic monitor (score before/after injective relabelling) + displaced-copy model to detect a mis-applied self-pair rule; pipeline runs with order-reversed value names',
+            'Each case is scored before and after relabelling either side, with and without correction; the corrected score of non-identical pairs must equal the displaced-copy model rather than the plain score, so a self-pair rule triggered by anything weaker than element-wise identity is observed. Exhaustive for all partition pairs on <=5/6 rows x all injective maps; targeted family of equal-sum / equal-histogram pairs.',
+            'Relabellings that make a non-identical pair identical are excluded from the corrected comparison. Trusts the C03 model.', '3/C02'),
+    'C03': ('reference-model monitor (explicit displaced-copy conditional entropies in float64) + planted-signal ranking family through the heuristic-name dispatch',
+            'Every corrected score is compared with H(Y*|X)-H(Y|X) computed from the statement; all ordered partition pairs on <=6/7 rows (hence all row orders), row-order variants of random structures, and a planted family (>20 sigma margin) that the uncorrected score demonstrably fails.',
+            'Trusts the float64 model; ranking corollary sampled over seeds at n in {4000, 8000, 16384}.', '3/C03'),
+    'C04': ('process-level sanitizers on the JIT estimator: MALLOC_PERTURB_ matrix in fresh interpreters, NUMBA_BOUNDSCHECK=1, in-process heap grooming, valgrind memcheck (thorough); bit-exact differential across executions; row model; metamorphic outside-sample insensitivity',
+            'The same case list (exhaustive small partitions x all ratios, targeted unequal strata) runs in 6 differently poisoned/bounds-checked interpreters whose exit status and float bits are compared; a model of the sampling rule fixes which rows may be read, and altering feature values outside them must not change a bit.',
+            'Red-zone tools miss in-bounds wrong reads (covered by the row model). MALLOC_PERTURB_ must reach numba NRT allocations (verified: the unfixed tree crashes/differs).', '3/C04'),
+    'C05': ('invariant at a hook: wrapper around core_ranking.mixed_rank_graph recomputes every emitted triplet from the frame it was given, with an independent coding and per-heuristic definitions',
+            'Every triplet of every monitored batch (in-process pool, compute_batch_ranking path, real process pool) is recomputed by definition of the selected heuristic with the label as conditioning target; documented heuristic names are harvested from the repository at run time and must not degrade to constants.',
+            'pearsonr/AMI of scipy/sklearn are trusted on the oracle codes; values contain no NUL and no None.', '3/C05'),
+    'C06': ('set-model monitor at the batch boundary; sampler wrapped to record the offered candidates, pool wrapped to record evaluated tasks',
+            'For every monitored batch the offered pair set must equal the requested set of the mode, the evaluated pairs must be a subset of size min(cap, offered) evaluated after the cap, every row pair must appear in both orientations with the same score (once for Constant) and mention frame columns only. Exhaustive for <=5/6 columns x label position x mode x heuristic class x every cap.',
+            '(rel, rel) self-pairs under 3MR+pairwise are optional; diagonal pairs may repeat.', '3/C06'),
+    'C07': ('pre/post-condition monitor (snapshot counter before, compare after) on prior_combinations_sample, in direct histories and inside pipeline runs; exported counts vs logged selections',
+            'Every sampler call of every history is checked for: returned subset of offered, exactly min(cap, m) distinct, least-evaluated-first against the prior counts, +1 on exactly the selected keys, spread <= 1 on stable duplicate-free lists; all cap sequences on <=5/6 candidates are enumerated; the counts exported by the library and the task must equal the selections observed.',
+            'Fairness asserted for duplicate-free lists only. Counter observed through the module attribute.', '3/C07'),
 }
 
 PENDING_REASON = 'check not built yet in this revision (planned: runtime monitor per DESIGN.md section 3)'
